@@ -18,7 +18,11 @@ def stream(g, n):
     out = []
     for _ in range(n):
         x = r.random()
-        if x < 0.1:
+        if x < 0.06:
+            # accepted frames whose address is zero must be neither applied nor counted
+            out.append(r.choice([hx(df17(0, g.me_ident()), 112), hx(short_ap(r.choice([0, 4, 5]), 0, r.getrandbits(27)), 56),
+                                 hx(df11(0, 5), 56), hx(long_ap(r.choice([16, 20, 21]), 0, r.getrandbits(27), r.getrandbits(56)), 112)]))
+        elif x < 0.1:
             out.append(g.junk_line())
         elif x < 0.15:
             out.append(g.corrupt(g.any_frame(r.choice(pool))))
@@ -48,6 +52,8 @@ def gen(seed, tier):
             o["c"] = 1
         if r.random() < 0.5:
             o["U"] = 1
+        if r.random() < 0.35:
+            o["M"] = r.choice(["17", "4+5", "99", "11+17+20"])
         cases.append(("C16-c%d" % i, "C", opts_str(o), seg(0, stream(g, r.randint(1, 40)))))
     for i in range(n):
         o = {}
@@ -55,6 +61,8 @@ def gen(seed, tier):
             o["f"] = "+".join(str(x) for x in r.sample(dfs, r.randint(1, 4)))
         if r.random() < 0.5:
             o["U"] = 1
+        if r.random() < 0.35:
+            o["M"] = r.choice(["17", "4+5", "99"])
         cases.append(H("C16-h%d" % i, o, [seg(0, stream(g, r.randint(1, 30)))]))
     return cases
 
@@ -92,7 +100,8 @@ def oracle(parts, outcome, obs):
         else:
             if lines[-1].startswith("DF"):
                 return "counter line printed without -c"
-        rows = [l for l in lines[2:] if l[:6].strip() and not l.startswith("-") and not l.startswith("DF")]
+        seps = [i for i, l in enumerate(lines) if l.startswith("------")]
+        rows = lines[seps[0] + 1:seps[1]] if len(seps) >= 2 else []
         got = set(int(l[:6], 16) for l in rows)
         if got != keys:
             return "rows %s, expected aircraft %s" % (sorted("%06X" % x for x in got), sorted("%06X" % x for x in keys))
